@@ -23,4 +23,179 @@ suffix are used. -/
 def class2tokensLocal (tokens : List α) (pre : Nat) (mid : List Bool) (suf : Nat) : List (Option α) :=
   class2tokens ((tokens.take (tokens.length - suf)).drop pre) mid
 
+
+/-! ### `ipa2tokens` (without `expand_nasals`) as a fold over the characters -/
+
+/-- character classes and options; arbitrary predicates – the theorems hold for every choice -/
+structure Cls where
+  isBreak : Nat → Bool
+  isCombiner : Nat → Bool
+  isStress : Nat → Bool
+  isDiacritic : Nat → Bool
+  isVowel : Nat → Bool
+  isTone : Nat → Bool
+  isSemi : Nat → Bool                 -- `semi_diacritics`
+  isNogo : List Nat → Bool            -- `out[-1] in nogos`
+  mergeVowels : Bool
+  mergeGeminates : Bool
+  nullGlyph : Nat                     -- U+2205
+
+/-- `out` is kept reversed: head = last token -/
+structure TokSt where
+  out : List (List Nat)
+  vowel : Bool
+  tone : Bool
+  merge : Bool
+  start : Bool
+  deriving Repr, DecidableEq
+
+def TokSt.init : TokSt := ⟨[], false, false, false, true⟩
+
+/-- `out[-1] += char`; `none` = IndexError on an empty list -/
+def appendLast (out : List (List Nat)) (c : Nat) : Option (List (List Nat)) :=
+  match out with
+  | [] => none
+  | t :: r => some ((t ++ [c]) :: r)
+
+/-- guard of the weak-diacritic branch (`out[-1]` is only reached when `not start`, i.e. when a
+token exists – see `TokInv`) -/
+def semiCond (K : Cls) (st : TokSt) (c : Nat) : Bool :=
+  K.isSemi c && !st.start && !st.vowel && !st.tone
+    && (match st.out with | [] => false | t :: _ => !K.isNogo t)
+
+/-- one iteration of `for char in sequence` -/
+def tokStep (K : Cls) (st : TokSt) (c : Nat) : Option TokSt :=
+  if K.isBreak c then some { st with start := true, vowel := false, tone := false, merge := false }
+  else if K.isCombiner c then
+    match st.out with
+    | [] => some { st with out := [[K.nullGlyph, c]], merge := false }
+    | _ => (appendLast st.out c).map fun o => { st with out := o, merge := true }
+  else if K.isStress c then
+    some { st with out := [c] :: st.out, merge := true, tone := false, vowel := false, start := false }
+  else if st.merge then
+    (appendLast st.out c).map fun o =>
+      { st with out := o, vowel := if K.isVowel c then true else st.vowel, merge := false }
+  else if semiCond K st c then
+    (appendLast st.out c).map fun o => { st with out := o }
+  else if K.isDiacritic c then
+    if !st.start then (appendLast st.out c).map fun o => { st with out := o }
+    else some { st with out := [c] :: st.out, start := false, merge := true }
+  else if K.isVowel c then
+    if st.vowel && K.mergeVowels then
+      (appendLast st.out c).map fun o => { st with out := o, start := false, tone := false }
+    else some { st with out := [c] :: st.out, vowel := true, start := false, tone := false }
+  else if K.isTone c then
+    if st.tone then (appendLast st.out c).map fun o => { st with out := o, vowel := false, start := false }
+    else some { st with out := [c] :: st.out, vowel := false, tone := true, start := false }
+  else some { st with out := [c] :: st.out, vowel := false, start := false, tone := false }
+
+def tokFold (K : Cls) : List Nat → TokSt → Option TokSt
+  | [], st => some st
+  | c :: cs, st => (tokStep K st c).bind (tokFold K cs)
+
+/-- the geminate pass: `new_out = [out[0]]; for …: if outA == outB: new_out[-1] += outB else new_out += [outB]`
+(on the forward list) -/
+def mergeGem : List (List Nat) → List (List Nat) → List Nat → List (List Nat)
+  -- accR: reversed accumulator, prev: the previous *original* token
+  | accR, [], _ => accR.reverse
+  | accR, t :: ts, prev =>
+    if prev == t then
+      match accR with
+      | a :: r => mergeGem ((a ++ t) :: r) ts t
+      | [] => mergeGem [t] ts t
+    else mergeGem (t :: accR) ts t
+
+def geminates (out : List (List Nat)) : Option (List (List Nat)) :=
+  match out with
+  | [] => none                                  -- `out[0]` raises IndexError
+  | t :: ts => some (mergeGem [t] ts t)
+
+/-- `ipa2tokens(sequence, expand_nasals=False)`; `none` where the code raises IndexError -/
+def ipa2tokens (K : Cls) (s : List Nat) : Option (List (List Nat)) :=
+  match tokFold K s TokSt.init with
+  | none => none
+  | some st => if K.mergeGeminates then geminates st.out.reverse else some st.out.reverse
+
+
+/-! ### `prosodic_string` on a sonority profile -/
+
+/-- prosodic symbols -/
+inductive Pro | A | B | C | L | M | N | X | Y | Z | T | brk
+  deriving DecidableEq, Repr, Inhabited
+
+/-- one iteration of the loop over `sstring[1:-1]`: neighbours `a b c`, the `first` flag and the
+string built so far (reversed: head = last symbol).  `none` = the `else: raise ValueError`. -/
+def proStep (a b c : Nat) (first : Bool) (ps : List Pro) : Option (Bool × List Pro) :=
+  if b = 7 then
+    if first then some (false, .X :: ps)
+    else if c = 9 then some (first, .Z :: ps)
+    else some (first, .Y :: ps)
+  else if b = 8 then some (first, .T :: ps)
+  else if (b ≤ a ∧ c ≤ b) ∨ c = 8 then
+    if c = 9 ∧ b ≠ 7 then some (first, .N :: ps)
+    else if c = 9 ∧ b = 7 then some (first, .Z :: ps)
+    else if first then some (false, .A :: ps)
+    else some (first, .L :: ps)
+  else if b < c ∨ (b < a ∧ b ≤ c) ∨ (a < b ∧ b ≤ c) then
+    if a = 9 then some (first, .A :: ps)
+    else if b ≤ a then
+      if c = 9 then some (first, .N :: ps)
+      else match ps with
+        | .A :: _ => some (first, .C :: ps)
+        | .L :: r => some (first, .B :: .M :: r)          -- rewrite the previous `L` to `M`
+        | p :: r => some (first, .B :: p :: r)
+        | [] => none                                       -- `pstring[-1]` on an empty string
+    else some (first, .C :: ps)
+  else if a < b ∧ c < b then
+    if first then some (false, .X :: ps) else some (first, .Y :: ps)
+  else none
+
+/-- loop over a profile that contains no word break: `prev` is the left neighbour -/
+def proLoop : Nat → List Nat → Bool → List Pro → Option (List Pro)
+  | _, [], _, ps => some ps.reverse
+  | a, [b], first, ps => (proStep a b 9 first ps).map fun r => r.2.reverse
+  | a, b :: c :: rest, first, ps =>
+    (proStep a b c first ps).bind fun r => proLoop b (c :: rest) r.1 r.2
+
+/-- split a profile at the word breaks `9` -/
+def splitNine : List Nat → List Nat → List (List Nat)
+  | cur, [] => [cur.reverse]
+  | cur, x :: xs => if x = 9 then cur.reverse :: splitNine [] xs else splitNine (x :: cur) xs
+
+/-- `prosodic_string(profile)` for an integer profile -/
+def prosodic (profile : List Nat) : Option (List Pro) :=
+  let parts := (splitNine [] profile).map fun p => proLoop 9 p true []
+  if parts.all Option.isSome then
+    some (List.intercalate [Pro.brk] (parts.map fun o => o.getD []))
+  else none
+
+/-! ### `token2class` fallback chain over an arbitrary finite converter -/
+
+structure TokCls where
+  lookup : List Nat → Option Nat       -- `model[token]`
+  isStress : Nat → Bool
+  isDiacritic : Nat → Bool
+  unknown : Nat                         -- the class "0"
+
+def token2class (M : TokCls) (tok : List Nat) : Nat :=
+  match M.lookup tok with
+  | some c => c
+  | none =>
+    match tok with
+    | [] => M.unknown
+    | h :: t =>
+      match M.lookup [h] with
+      | some c => c
+      | none =>
+        if (M.isStress h && !t.isEmpty) || (M.isDiacritic h && !t.isEmpty) then
+          match M.lookup t with
+          | some c => c
+          | none =>
+            match t with
+            | h2 :: _ => (M.lookup [h2]).getD M.unknown
+            | [] => M.unknown
+        else M.unknown
+
+def tokens2class (M : TokCls) (toks : List (List Nat)) : List Nat := toks.map (token2class M)
+
 end Verif.SC
